@@ -21,7 +21,6 @@ import (
 	cs "github.com/lianxiangcloud/linkchain/consensus"
 	"github.com/lianxiangcloud/linkchain/libs/common"
 	"github.com/lianxiangcloud/linkchain/libs/crypto"
-	lktypes "github.com/lianxiangcloud/linkchain/libs/cryptonote/types"
 	"github.com/lianxiangcloud/linkchain/types"
 
 	"verif/sim/kernel"
@@ -286,6 +285,3 @@ func TestReproPruneWindowLargerThanChain(t *testing.T) {
 		}
 	}
 }
-
-var _ = fmt.Sprintf
-var _ lktypes.Key
